@@ -123,6 +123,7 @@ type Corpus struct {
 	GenFailed, CompFailed int
 	raceMu                sync.Mutex
 	RaceReports           []string // stderr of children that printed "WARNING: DATA RACE"
+	Abandoned             int      // requests not run because their chunk's child had died three times
 }
 
 func New(env *harness.Env, peg string, race bool, tag string) *Corpus {
@@ -483,8 +484,13 @@ func (c *Corpus) runChunk(reqs []Req, res []Res, chunk []int, o RunOpts, w int) 
 			}
 		}
 		remaining = rest
-		if attempt > 50 {
-			return fmt.Errorf("runner died more than 50 times in one chunk; last: %s", stderrTail)
+		if attempt >= 3 {
+			// three process deaths in one chunk are three violations already; the rest of the chunk is not run
+			// (each further death would cost a full CPU limit)
+			c.raceMu.Lock()
+			c.Abandoned += len(remaining)
+			c.raceMu.Unlock()
+			return nil
 		}
 	}
 	return nil
